@@ -1,7 +1,8 @@
 (* C09 -- loss detection is sound and in-flight bookkeeping is exact; RTT / PTO bounds.
    Property theorems only; each is closed by [exact] of a lemma proved in proofs/. *)
 From SQ Require Import lib.Base gen.Gen_C09 model.RecTime.
-From SQ Require model.Rtt model.Loss model.Pto model.Recovery proofs.LossProofs proofs.RttProofs proofs.PtoProofs proofs.RecoveryProofs proofs.RecoveryJudgeProofs.
+From SQ Require model.Rtt model.Loss model.Pto model.Recovery proofs.LossProofs proofs.RttProofs proofs.PtoProofs proofs.RecoveryProofs proofs.RecoveryJudgeProofs proofs.PcProofs.
+From SQ Require model.PcComp.
 Local Open Scope N_scope.
 
 (* ---------------- generated constants carry the values the property names ---------------- *)
@@ -149,15 +150,16 @@ Theorem C09_timeout_backoff : forall m now maxb, Recovery.loss_timer m = None ->
 Proof. exact RecoveryProofs.timeout_backoff. Qed.
 
 (* every history of driver operations (send / burst end / ACK frames with arbitrary, also duplicated,
-   reordered and overlapping ranges, on either path / timeouts), any space, any handshake state *)
+   reordered and overlapping ranges, on either path / timeouts / Retry / peer validation), any space, server or
+   client, any handshake state *)
 
 (* whatever detect_and_remove_lost_packets declares lost is an unresolved sent packet, a larger
    packet number has been acknowledged, and it is 3 or more below the largest acknowledged or older
    than max(9/8 max(smoothed, latest) of its path, 1 ms) -- partial: the age is compared with one timer
    granularity (1000 us) of slack, see C09_detect_sound_refuted *)
-Theorem C09_lost_only_if_rfc_partial : forall sp cf mad st ops now cpath pn,
+Theorem C09_lost_only_if_rfc_partial : forall sp cf cl mad st ops now cpath pn,
   Forall RecoveryProofs.no_discard ops ->
-  let m := RecoveryProofs.reach (Recovery.minit sp cf mad st) ops in
+  let m := RecoveryProofs.reach (Recovery.minit sp cf cl mad st) ops in
   In pn (snd (Recovery.detect_and_remove m now cpath)) ->
   exists p lg, In p (Recovery.sentp m) /\ Recovery.p_pn p = pn /\ Recovery.largest m = Some lg /\ pn < lg
     /\ let r := Recovery.rt (Recovery.get_path m (Recovery.p_path p)) in
@@ -167,8 +169,8 @@ Proof. exact RecoveryProofs.lost_only_if_rfc_reachable. Qed.
 
 (* bytes in flight (sent - acked - lost - discarded of the byte-ledger congestion controller) equals
    the total size of the unresolved packets of that path in every reachable state; never negative *)
-Theorem C09_bif_exact : forall sp cf mad st ops, Forall RecoveryProofs.no_discard ops ->
-  let m := RecoveryProofs.reach (Recovery.minit sp cf mad st) ops in
+Theorem C09_bif_exact : forall sp cf cl mad st ops, Forall RecoveryProofs.no_discard ops ->
+  let m := RecoveryProofs.reach (Recovery.minit sp cf cl mad st) ops in
   Recovery.bif (Recovery.ccs (Recovery.pa m)) = Nz (Recovery.sum_bytes_on (Recovery.sentp m) 0)
   /\ Recovery.bif (Recovery.ccs (Recovery.pb m)) = Nz (Recovery.sum_bytes_on (Recovery.sentp m) 1)
   /\ (0 <= Recovery.bif (Recovery.ccs (Recovery.pa m)))%Z /\ (0 <= Recovery.bif (Recovery.ccs (Recovery.pb m)))%Z.
@@ -182,8 +184,8 @@ Proof. exact RecoveryProofs.discard_exact. Qed.
 
 (* every sent packet is resolved exactly once: unresolved packet numbers are pairwise distinct and were
    sent; a sent packet that is no longer unresolved (acknowledged or declared lost) never returns *)
-Theorem C09_resolved_exactly_once : forall sp cf mad st ops, Forall RecoveryProofs.no_discard ops ->
-  let m := RecoveryProofs.reach (Recovery.minit sp cf mad st) ops in
+Theorem C09_resolved_exactly_once : forall sp cf cl mad st ops, Forall RecoveryProofs.no_discard ops ->
+  let m := RecoveryProofs.reach (Recovery.minit sp cf cl mad st) ops in
   NoDup (map Recovery.p_pn (Recovery.sentp m))
   /\ (forall p, In p (Recovery.sentp m) -> exists l, Recovery.lastpn m = Some l /\ Recovery.p_pn p <= l)
   /\ (forall ops2 pn l, Forall RecoveryProofs.no_discard ops2 -> Recovery.lastpn m = Some l -> pn <= l ->
@@ -227,15 +229,31 @@ Theorem C09_timeout_lost_only_if_rfc_partial : forall m now maxb pn, RecoveryPro
        (3 <= lg - pn \/ Recovery.p_time p + thr / 1000 < now + 1000).
 Proof. exact RecoveryProofs.timeout_lost_only_if_rfc. Qed.
 
+(* a packet-number-space discard (Initial / Handshake, or the client's single path) and a Retry take
+   exactly the unresolved bytes out of flight; after a Retry the manager keeps nothing and the ledger
+   invariant holds again *)
+Theorem C09_discard_exact_space : forall m, RecoveryProofs.winv m ->
+  Recovery.m_client m = true \/ Recovery.m_space m <> 2 ->
+  Recovery.bif (Recovery.ccs (Recovery.pa (Recovery.discard m))) = 0%Z
+  /\ Recovery.bif (Recovery.ccs (Recovery.pb (Recovery.discard m))) = 0%Z.
+Proof. exact RecoveryProofs.discard_exact_space. Qed.
+
+Theorem C09_retry_exact : forall m, RecoveryProofs.winv m -> Recovery.m_client m = true ->
+  Recovery.sentp (Recovery.retry m) = []
+  /\ Recovery.bif (Recovery.ccs (Recovery.pa (Recovery.retry m))) = 0%Z
+  /\ Recovery.bif (Recovery.ccs (Recovery.pb (Recovery.retry m))) = 0%Z
+  /\ RecoveryProofs.winv (Recovery.retry m).
+Proof. exact RecoveryProofs.retry_exact. Qed.
+
 (* the ledger invariant holds in every reachable state *)
-Theorem C09_reach_winv : forall sp cf mad st ops, Forall RecoveryProofs.no_discard ops ->
-  RecoveryProofs.winv (RecoveryProofs.reach (Recovery.minit sp cf mad st) ops).
+Theorem C09_reach_winv : forall sp cf cl mad st ops, Forall RecoveryProofs.no_discard ops ->
+  RecoveryProofs.winv (RecoveryProofs.reach (Recovery.minit sp cf cl mad st) ops).
 Proof. exact RecoveryProofs.reach_winv. Qed.
 
 (* the executable manager judgement: with one timer granularity of slack on a lost packet's age it
-   accepts every run of the model (histories without a space discard) -- partial, because ... *)
-Theorem C09_manager_judge_model_partial : forall case, RecoveryJudgeProofs.no_discard_case case = true ->
-  Recovery.judge_tol case (Recovery.run case) = true.
+   accepts every run of the model -- any space, server or client, space discards and Retry included.
+   Partial only because ... *)
+Theorem C09_manager_judge_model_partial : forall case, Recovery.judge_tol case (Recovery.run case) = true.
 Proof. exact RecoveryJudgeProofs.judge_tol_run. Qed.
 
 (* ... the judgement that states the property (no slack) rejects the model's own run on the early-loss
@@ -243,6 +261,37 @@ Proof. exact RecoveryJudgeProofs.judge_tol_run. Qed.
 Theorem C09_manager_judge_strict_refuted : exists case,
   Recovery.judge case (Recovery.run case) = false /\ Recovery.judge_tol case (Recovery.run case) = true.
 Proof. exact RecoveryJudgeProofs.judge_strict_refuted. Qed.
+
+(* ---------------- persistent congestion (recovery/persistent_congestion.rs, RFC 9002 7.6) -------- *)
+(* the calculator never reports more than the longest period witnessed among the lost packets ... *)
+Theorem C09_pc_sound : forall first cpath l, Sorting.Sorted.StronglySorted RecoveryProofs.plt l ->
+  Recovery.maxd (fold_left (PcProofs.step first cpath) l PcComp.pc0) <= PcComp.spec first cpath l.
+Proof. exact PcProofs.pc_sound. Qed.
+
+(* ... where a witnessed period of duration d > 0 is: an ack-eliciting lost packet p on the path, sent
+   after the first RTT sample, and a chain of lost packets with consecutive packet numbers, all on the
+   path and after the first RTT sample (so nothing in between was acknowledged), ending in an
+   ack-eliciting packet sent d later *)
+Theorem C09_pc_spec_witness : forall first cpath l, 0 < PcComp.spec first cpath l ->
+  exists pre p t, l = pre ++ p :: t /\ PcComp.eligible first cpath p = true /\ Recovery.p_ae p = true
+                  /\ PcProofs.chain first cpath (Recovery.p_time p) (Recovery.p_pn p) t (PcComp.spec first cpath l).
+Proof. exact PcProofs.spec_witness. Qed.
+
+(* the manager declares persistent congestion for a lost packet only when that duration exceeds
+   (smoothed_rtt + max(4 rttvar, 1 ms) + max_ack_delay) * 3 of the packet's path, in whole milliseconds *)
+Theorem C09_pc_threshold : forall r,
+  Rtt.persistent_congestion_threshold r =
+  (Rtt.smoothed r / 1000000 + N.max (4 * (Rtt.rttvar r / 1000) / 1000) 1 + Rtt.mad r / 1000000) * 3 * 1000000.
+Proof. exact PcProofs.pc_threshold. Qed.
+
+(* and that duration is the calculator's over exactly the packets declared lost in this detection *)
+Theorem C09_pc_manager_duration : forall m lg now cpath l c ls c' lt,
+  Recovery.detect_walk m lg now cpath l c = (ls, c', lt) ->
+  c' = fold_left (PcProofs.step (Recovery.fts (Recovery.get_path m cpath)) cpath) ls c.
+Proof. exact PcProofs.detect_walk_calc. Qed.
+
+Theorem C09_pc_judge_model : forall c, PcComp.judge c (PcComp.run c) = true.
+Proof. exact PcProofs.judge_run. Qed.
 
 (* non-vacuity *)
 Example C09_example :
@@ -300,3 +349,10 @@ Print Assumptions C09_timeout_lost_only_if_rfc_partial.
 Print Assumptions C09_reach_winv.
 Print Assumptions C09_manager_judge_model_partial.
 Print Assumptions C09_manager_judge_strict_refuted.
+Print Assumptions C09_discard_exact_space.
+Print Assumptions C09_retry_exact.
+Print Assumptions C09_pc_sound.
+Print Assumptions C09_pc_spec_witness.
+Print Assumptions C09_pc_threshold.
+Print Assumptions C09_pc_judge_model.
+Print Assumptions C09_pc_manager_duration.
